@@ -40,11 +40,11 @@ var swapped = map[string]string{
 	"runtime":      modPath + "/verifsim/runtime",
 	"math/rand":    modPath + "/verifsim/rand",
 	"math/rand/v2": modPath + "/verifsim/randv2",
+	"os":           modPath + "/verifsim/os",
 }
 
 // imports library code may not use under the simulator
 var refusedImports = map[string]string{
-	"os":            "process environment / files",
 	"net":           "real sockets",
 	"net/http":      "real sockets",
 	"os/exec":       "processes",
